@@ -36,11 +36,11 @@ LookupClauses(post, q) ==
   LET K == KnownOf(post.trie) IN
   FailNamesQ(<<
     <<"C02.lookup",  \A j \in 1..Len(q.lookup) : q.lookup[j].found = (q.lookup[j].l \in K)>>,
-    <<"C02.lookup.model", \A j \in 1..Len(q.lookup) : (LruNode(post.trie, q.lookup[j].l) # 0) = q.lookup[j].found>>,
+    <<"bind.lookup.model", \A j \in 1..Len(q.lookup) : (LruNode(post.trie, q.lookup[j].l) # 0) = q.lookup[j].found>>,
     <<"C02.windup",  \A j \in 1..Len(q.lookup) : q.lookup[j].found => q.lookup[j].wind = q.lookup[j].l>>,
     <<"C02.nofail",  q.dfsexc = "" /\ \A j \in 1..Len(q.lookup) : q.lookup[j].exc = "">>,
     <<"C02.dfs",     SeqSet(q.dfs) = K /\ Len(q.dfs) = Cardinality(K)>>,
-    <<"C02.dfs.order", q.dfs = [j \in 1..Len(DfsRoot(post.trie)) |-> DfsRoot(post.trie)[j][2]]>>
+    <<"bind.dfs.order", q.dfs = [j \in 1..Len(DfsRoot(post.trie)) |-> DfsRoot(post.trie)[j][2]]>>
   >>)
 
 (***************************************************************************)
@@ -100,7 +100,7 @@ PotentialClauses(post, rm, d, o, q) ==
                           LET r == q.pot[j] IN
                           RamComplete(A, rm, r.l) =>
                             (r.exc = "" /\ r.p = PotentialPrefix(A, rm, d, r.l))>>,
-    <<"C06.potential.pure", q.wrote = 0>>
+    <<"bind.potential.nowrite", q.wrote = 0>>
   >>)
 
 (***************************************************************************)
@@ -113,11 +113,10 @@ MetricsClauses(post, o, q) ==
   IN IF Len(post.trie) = 0 THEN <<>>     \* metrics() of an empty index divides by zero (outside C19)
      ELSE FailNamesQ(<<
        <<"C19.metrics", /\ m.exc = ""
-                        /\ m.nodes = Len(post.trie)
                         /\ m.pages = Cardinality(PSet(o)) /\ m.crawled = Cardinality(CSet(o))
-                        /\ m.tails = tails /\ m.stems = Len(post.trie) - tails
-                        /\ m.frag = frag
-                        /\ m.links = SumW(OutT(o))>>
+                        /\ m.tails = tails
+                        /\ m.links = SumW(OutT(o))>>,
+       <<"bind.metrics", m.nodes = Len(post.trie) /\ m.stems = Len(post.trie) - tails /\ m.frag = frag>>
      >>)
 
 (***************************************************************************)
@@ -463,7 +462,7 @@ TopBlocks(tr, ls, ps, k, depth) ==
 ReadOnlyClauses(q) ==
   FailNamesQ(<<
     <<"C14.same",   \A j \in 1..Len(q.ro) : q.ro[j].changed = 0>>,
-    <<"C14.nowrite", \A j \in 1..Len(q.ro) : q.ro[j].wrote = 0>>
+    <<"bind.nowrite", \A j \in 1..Len(q.ro) : q.ro[j].wrote = 0>>
   >>)
 
 QueryClauses(post, rm, d, S) ==
